@@ -268,6 +268,15 @@ func (c07) Gen(tier string, seed int64, emit0 func([]Ev)) {
 			}
 			emit([]Ev{{"op": "pat", "carrier": "stream", "abs": patEv(p), "stream": st, "tail": tail, "reader": c07Readers[r.Intn(len(c07Readers))]}})
 		}
+		// sections longer than one packet can carry (up to 253 entries in 1021 bytes), as payload bytes
+		for _, n := range []int{43, 44, 63, 64, 65, 127, 128, 129, 200, 252, 253} {
+			if rep%3 != 0 && n != 253 && n != 64 {
+				continue
+			}
+			p := randPAT(r, n)
+			pb := append([]byte{0}, patSection(p)...)
+			emit([]Ev{{"op": "pat", "carrier": "payload", "abs": patEv(p), "bytes": B(pb)}})
+		}
 		p := randPAT(r, 1+r.Intn(8))
 		dup := false
 		if len(p.Entries) >= 2 && r.Intn(3) == 0 {
